@@ -560,6 +560,15 @@ def mon_C07(t):
             a = t.executed[i]
             ci, call = t.ack_call[a]
             status = r["acks"][a] if a < len(r["acks"]) else 0
+            if (call[0].startswith("put") or call[0] == "upsert") and not t.ack_is_update.get(a) and status != 0:
+                # a queued put applied while its key is readable never overwrites it
+                k = key_of_call(call)
+                ent = t.store_before(i).get(k)
+                if t.alive(ent, now):
+                    if status != 5:
+                        out.append(fail(t, i, "queued-put-overwrote-readable-key", "a queued put of key %d was applied while the key was readable: status %d instead of KeyAlreadyExists" % (k, status)))
+                    elif t.store_after(i).get(k) != ent:
+                        out.append(fail(t, i, "rejected-put-changed-state", "a rejected queued put changed key %d" % k))
             if (call[0].startswith("put") or call[0] == "upsert") and status == 5 and not t.ack_is_update.get(a):
                 k = key_of_call(call)
                 ent = t.store_before(i).get(k)
@@ -756,6 +765,29 @@ def mon_C11(t):
         order += sorted(newly)
     if order != sorted(order):
         out.append(fail(t, t.n - 1, "acks-out-of-order", "acknowledgements resolved in order %s" % order))
+    # writes are applied in submission order: at quiescence, a key whose last issued write is a delete is absent
+    last_write = {}
+    for i, r in enumerate(t.recs):
+        if r["skipped"]:
+            continue
+        p = r["ev"].split()
+        if p[0] == "call" and p[2] in ("put", "put_w", "put_ttl", "put_w_ttl", "upsert", "delete") and r["ret"] and r["ret"][0] in (0, 1):
+            if t.before[i]["shut"]:
+                continue
+            last_write[int(p[3])] = (i, p[2])
+        if p[0] == "run" and r["ret"] and r["ret"][0] in (0, 1):
+            call = t.pending_call(i)      # a parked write is queued now: it is the latest write of its key
+            if call and call[0] in ("put", "put_w", "put_ttl", "put_w_ttl", "upsert", "delete"):
+                last_write[int(call[1])] = (i, call[0])
+        if p[0] in ("call", "run") and r["ret"] and r["ret"][0] == 3:
+            last_write.clear()      # a parked sender makes "last issued" ambiguous: restart the bookkeeping
+        if r["snap"]["shut"]:
+            last_write.clear()
+        if t.quiescent(i) and r["roles"]["worker"] == "alive":
+            sa = t.store_after(i)
+            for k, (ci, op) in last_write.items():
+                if op == "delete" and k in sa:
+                    out.append(fail(t, i, "delete-after-put-lost", "delete(%d) was issued after every other write of key %d and everything is acknowledged, yet the key is still stored" % (k, k)))
     # KeysAdded counts accepted puts exactly once
     return out
 
@@ -856,15 +888,41 @@ def mon_C17(t):
             if cls == "value-missing":
                 continue      # documented precondition: an upsert that turns into a put must carry a value
             sig = PANIC_SIG.get(cls, "panic-" + cls)
-            if cls == "weight" and not (p[0] == "call" and p[2] == "upsert"):
-                sig = "weight-assert-on-valid-call"
+            call = p[2:] if p[0] == "call" else t.pending_call(i)
+            if cls == "weight":
+                # the known class: an upsert that adds / removes a time-to-live without giving a weight or a value
+                known = call and call[0] == "upsert" and call[2] == "-" and call[3] == "-" and (call[4] != "-" or call[5] == "1")
+                if not known:
+                    sig = "weight-assert-on-valid-call"
+            if cls == "expiry-overflow" and not (call and call[0] == "upsert" and call[4] != "-" and int(call[4]) > (1 << 62)):
+                sig = "expiry-overflow-with-small-ttl"
+            if cls == "i64-overflow" and not (call and call[0] == "upsert" and call[2] == "-" and call[3] == "-"):
+                sig = "arithmetic-overflow-in-caller"
             out.append(fail(t, i, sig, "the caller panicked: %s" % r["ret"][1]))
         for role in ("worker", "sweeper", "consumer"):
             st = r["roles"][role]
             before = t.recs[i - 1]["roles"][role] if i > 0 else "alive"
             if st.startswith("dead") and not before.startswith("dead"):
                 cls = panic_class(st)
-                out.append(fail(t, i, PANIC_SIG.get(cls, "panic-" + cls) + ("" if role == "worker" else "-" + role), "the %s panicked: %s" % (role, st)))
+                sig = PANIC_SIG.get(cls, "panic-" + cls) + ("" if role == "worker" else "-" + role)
+                if role == "worker":
+                    a = t.executed.get(i)
+                    call = t.ack_call[a][1] if a in t.ack_call else None
+                    is_update = bool(t.ack_is_update.get(a))
+                    # the known classes: UpdateWeight whose new total leaves i64; a put whose time-to-live overflows SystemTime
+                    if cls == "i64-overflow" and not is_update:
+                        sig = "weight-overflow-outside-update-weight"
+                    if cls == "expiry-overflow":
+                        ttl = None
+                        if call and call[0] == "put_ttl":
+                            ttl = int(call[3])
+                        elif call and call[0] == "put_w_ttl":
+                            ttl = int(call[4])
+                        elif call and call[0] == "upsert" and call[4] != "-":
+                            ttl = int(call[4])
+                        if ttl is None or ttl < (1 << 62):
+                            sig = "expiry-overflow-with-small-ttl"
+                out.append(fail(t, i, sig, "the %s panicked: %s" % (role, st)))
     return out
 
 
@@ -882,6 +940,18 @@ def mon_C08_all(t):
 
 
 MONITORS["C08"] = mon_C08_all
+
+
+def mon_C09_all(t):
+    # "never hidden by expiry while the clock is before its expiry": a sweep that removes a key whose current expiry has
+    # not passed hides it through the expiry machinery
+    early = [f for f in mon_C03(t) if f["event"] == "sweep"]
+    for f in early:
+        f["signature"] = "removed-by-sweep-before-expiry"
+    return mon_C09(t) + early
+
+
+MONITORS["C09"] = mon_C09_all
 
 
 def mon_guard(t):
